@@ -119,6 +119,13 @@ func runC18(e *env) {
 		}
 	}
 
+	// the composed model bytes -> tree (scanner model + nested scanner model + parser model), and the
+	// float conversion of the parser model against strconv.ParseFloat
+	ptBytesTie(e, cases, res, e.m.Batch, 4)
+	if e.replay == "" {
+		ptFloatTie(e, e.m.Batch, 1500*e.scale)
+	}
+
 	total := 0
 	for i, c := range cases {
 		r := &res[i]
@@ -161,6 +168,9 @@ func runC18(e *env) {
 		} else if modelOK[i] {
 			e.res.Histogram["prediction:agrees-with-model-of-pinned-Expr-only"]++
 		}
+	}
+	if e.replay == "" {
+		ptKindCoverage(e)
 	}
 	e.res.Histogram["scanner-goroutines-left-total"] = total
 	e.res.Note("scanner goroutines left behind over all sequences: %d", total)
